@@ -323,47 +323,47 @@ Rep == {<<"OR">>, <<"AND">>, <<"=">>, <<"&">>, <<"-">>, <<"*">>, <<"||">>}
 
 EGen(In) ==
   (* two infix operators: flat, left operand parenthesized, right operand parenthesized *)
-     {EC("pair/flat",   <<o1, o2>>, A \o o1 \o Bb \o o2 \o C) : o1 \in In, o2 \in In}
-  \cup {EC("pair/lparen", <<o1, o2>>, P(A \o o1 \o Bb) \o o2 \o C) : o1 \in In, o2 \in In}
-  \cup {EC("pair/rparen", <<o1, o2>>, A \o o1 \o P(Bb \o o2 \o C)) : o1 \in In, o2 \in In}
+     {EC("pair-flat",   <<o1, o2>>, A \o o1 \o Bb \o o2 \o C) : o1 \in In, o2 \in In}
+  \cup {EC("pair-lparen", <<o1, o2>>, P(A \o o1 \o Bb) \o o2 \o C) : o1 \in In, o2 \in In}
+  \cup {EC("pair-rparen", <<o1, o2>>, A \o o1 \o P(Bb \o o2 \o C)) : o1 \in In, o2 \in In}
   (* prefix against infix *)
-  \cup {EC("pre/flat",    <<u, o>>, u \o A \o o \o Bb) : u \in Prefix, o \in In}
-  \cup {EC("pre/paren",   <<u, o>>, u \o P(A \o o \o Bb)) : u \in Prefix, o \in In}
-  \cup {EC("pre/right",   <<o, u>>, A \o o \o u \o Bb) : u \in Prefix, o \in In}
-  \cup {EC("pre/rparen",  <<o, u>>, A \o o \o P(u \o Bb)) : u \in Prefix, o \in In}
+  \cup {EC("pre-flat",    <<u, o>>, u \o A \o o \o Bb) : u \in Prefix, o \in In}
+  \cup {EC("pre-paren",   <<u, o>>, u \o P(A \o o \o Bb)) : u \in Prefix, o \in In}
+  \cup {EC("pre-right",   <<o, u>>, A \o o \o u \o Bb) : u \in Prefix, o \in In}
+  \cup {EC("pre-rparen",  <<o, u>>, A \o o \o P(u \o Bb)) : u \in Prefix, o \in In}
   (* prefix against prefix (and three in a row) *)
-  \cup {EC("prepre/flat",  <<u1, u2>>, u1 \o u2 \o A) : u1 \in Prefix, u2 \in Prefix}
-  \cup {EC("prepre/paren", <<u1, u2>>, u1 \o P(u2 \o A)) : u1 \in Prefix, u2 \in Prefix}
-  \cup {EC("prepre/num",   <<u1, u2>>, u1 \o u2 \o D) : u1 \in Prefix, u2 \in Prefix}
-  \cup {EC("pre3/flat",    <<u1, u2, u3>>, u1 \o u2 \o u3 \o A) : u1 \in Prefix, u2 \in Prefix, u3 \in Prefix}
-  \cup {EC("prepre/inbin", <<o, u1, u2>>, A \o o \o u1 \o u2 \o Bb) : o \in {<<"-">>, <<"+">>, <<"*">>, <<"=">>, <<"AND">>}, u1 \in Prefix, u2 \in Prefix}
+  \cup {EC("prepre-flat",  <<u1, u2>>, u1 \o u2 \o A) : u1 \in Prefix, u2 \in Prefix}
+  \cup {EC("prepre-paren", <<u1, u2>>, u1 \o P(u2 \o A)) : u1 \in Prefix, u2 \in Prefix}
+  \cup {EC("prepre-num",   <<u1, u2>>, u1 \o u2 \o D) : u1 \in Prefix, u2 \in Prefix}
+  \cup {EC("pre3-flat",    <<u1, u2, u3>>, u1 \o u2 \o u3 \o A) : u1 \in Prefix, u2 \in Prefix, u3 \in Prefix}
+  \cup {EC("prepre-inbin", <<o, u1, u2>>, A \o o \o u1 \o u2 \o Bb) : o \in {<<"-">>, <<"+">>, <<"*">>, <<"=">>, <<"AND">>}, u1 \in Prefix, u2 \in Prefix}
   (* postfix against infix and prefix *)
-  \cup {EC("post/flat",   <<o, q>>, A \o o \o Bb \o q) : o \in In, q \in Postfix}
-  \cup {EC("post/paren",  <<o, q>>, P(A \o o \o Bb) \o q) : o \in In, q \in Postfix}
-  \cup {EC("post/left",   <<q, o>>, A \o q \o o \o Bb) : o \in In, q \in Postfix}
-  \cup {EC("prepost/flat",   <<u, q>>, u \o A \o q) : u \in Prefix, q \in Postfix}
-  \cup {EC("prepost/lparen", <<u, q>>, P(u \o A) \o q) : u \in Prefix, q \in Postfix}
-  \cup {EC("prepost/rparen", <<u, q>>, u \o P(A \o q)) : u \in Prefix, q \in Postfix}
+  \cup {EC("post-flat",   <<o, q>>, A \o o \o Bb \o q) : o \in In, q \in Postfix}
+  \cup {EC("post-paren",  <<o, q>>, P(A \o o \o Bb) \o q) : o \in In, q \in Postfix}
+  \cup {EC("post-left",   <<q, o>>, A \o q \o o \o Bb) : o \in In, q \in Postfix}
+  \cup {EC("prepost-flat",   <<u, q>>, u \o A \o q) : u \in Prefix, q \in Postfix}
+  \cup {EC("prepost-lparen", <<u, q>>, P(u \o A) \o q) : u \in Prefix, q \in Postfix}
+  \cup {EC("prepost-rparen", <<u, q>>, u \o P(A \o q)) : u \in Prefix, q \in Postfix}
   \cup {EC("postpost",       <<q1, q2>>, A \o q1 \o q2) : q1 \in Postfix, q2 \in Postfix}
   (* BETWEEN / IN / LIKE .. ESCAPE against infix *)
-  \cup {EC("btw/low",   <<n, o>>, A \o n \o Bb \o o \o C \o <<"AND">> \o D) : n \in {<<"BETWEEN">>, <<"NOT", "BETWEEN">>}, o \in In}
-  \cup {EC("btw/left",  <<o, n>>, A \o o \o Bb \o n \o C \o <<"AND">> \o D) : n \in {<<"BETWEEN">>, <<"NOT", "BETWEEN">>}, o \in In}
-  \cup {EC("btw/high",  <<n, o>>, A \o n \o Bb \o <<"AND">> \o C \o o \o D) : n \in {<<"BETWEEN">>, <<"NOT", "BETWEEN">>}, o \in In}
-  \cup {EC("btw/hparen", <<n, o>>, A \o n \o Bb \o <<"AND">> \o P(C \o o \o D)) : n \in {<<"BETWEEN">>, <<"NOT", "BETWEEN">>}, o \in In}
-  \cup {EC("in/left",   <<o, n>>, A \o o \o Bb \o n \o P(C \o <<",">> \o D)) : n \in {<<"IN">>, <<"NOT", "IN">>}, o \in In}
-  \cup {EC("in/item",   <<n, o>>, A \o n \o P(Bb \o o \o C \o <<",">> \o D)) : n \in {<<"IN">>, <<"NOT", "IN">>}, o \in In}
-  \cup {EC("in/after",  <<n, o>>, A \o n \o P(Bb \o <<",">> \o C) \o o \o D) : n \in {<<"IN">>, <<"NOT", "IN">>}, o \in In}
-  \cup {EC("in/empty",  <<n>>, A \o n \o <<"(", ")">>) : n \in {<<"IN">>, <<"NOT", "IN">>}}
-  \cup {EC("esc/after", <<n, o>>, A \o n \o <<"'x%'", "ESCAPE", "'!'">> \o o \o Bb) : n \in {<<"LIKE">>, <<"NOT", "LIKE">>}, o \in In}
-  \cup {EC("esc/pat",   <<n, o>>, A \o n \o Bb \o o \o C \o <<"ESCAPE", "'!'">>) : n \in {<<"LIKE">>, <<"NOT", "LIKE">>}, o \in In}
+  \cup {EC("btw-low",   <<n, o>>, A \o n \o Bb \o o \o C \o <<"AND">> \o D) : n \in {<<"BETWEEN">>, <<"NOT", "BETWEEN">>}, o \in In}
+  \cup {EC("btw-left",  <<o, n>>, A \o o \o Bb \o n \o C \o <<"AND">> \o D) : n \in {<<"BETWEEN">>, <<"NOT", "BETWEEN">>}, o \in In}
+  \cup {EC("btw-high",  <<n, o>>, A \o n \o Bb \o <<"AND">> \o C \o o \o D) : n \in {<<"BETWEEN">>, <<"NOT", "BETWEEN">>}, o \in In}
+  \cup {EC("btw-hparen", <<n, o>>, A \o n \o Bb \o <<"AND">> \o P(C \o o \o D)) : n \in {<<"BETWEEN">>, <<"NOT", "BETWEEN">>}, o \in In}
+  \cup {EC("in-left",   <<o, n>>, A \o o \o Bb \o n \o P(C \o <<",">> \o D)) : n \in {<<"IN">>, <<"NOT", "IN">>}, o \in In}
+  \cup {EC("in-item",   <<n, o>>, A \o n \o P(Bb \o o \o C \o <<",">> \o D)) : n \in {<<"IN">>, <<"NOT", "IN">>}, o \in In}
+  \cup {EC("in-after",  <<n, o>>, A \o n \o P(Bb \o <<",">> \o C) \o o \o D) : n \in {<<"IN">>, <<"NOT", "IN">>}, o \in In}
+  \cup {EC("in-empty",  <<n>>, A \o n \o <<"(", ")">>) : n \in {<<"IN">>, <<"NOT", "IN">>}}
+  \cup {EC("esc-after", <<n, o>>, A \o n \o <<"'x%'", "ESCAPE", "'!'">> \o o \o Bb) : n \in {<<"LIKE">>, <<"NOT", "LIKE">>}, o \in In}
+  \cup {EC("esc-pat",   <<n, o>>, A \o n \o Bb \o o \o C \o <<"ESCAPE", "'!'">>) : n \in {<<"LIKE">>, <<"NOT", "LIKE">>}, o \in In}
   (* embeddings *)
-  \cup {EC("case/when",  <<o1, o2>>, <<"CASE", "WHEN">> \o A \o o1 \o Bb \o <<"THEN">> \o C \o <<"ELSE", "2", "END">> \o o2 \o A) : o1 \in In, o2 \in {<<"+">>, <<"=">>, <<"AND">>}}
-  \cup {EC("case/operand", <<o>>, <<"CASE">> \o A \o o \o Bb \o <<"WHEN", "1", "THEN">> \o C \o <<"WHEN", "0", "THEN", "2", "END">>) : o \in In}
-  \cup {EC("fn/arg",     <<o>>, <<"coalesce", "(">> \o A \o o \o Bb \o <<",">> \o C \o <<")">>) : o \in In}
-  \cup {EC("fn/after",   <<o>>, <<"abs", "(">> \o A \o <<")">> \o o \o Bb) : o \in In}
-  \cup {EC("cast/arg",   <<o>>, <<"CAST", "(">> \o A \o o \o Bb \o <<"AS", "INTEGER", ")">>) : o \in In}
+  \cup {EC("case-when",  <<o1, o2>>, <<"CASE", "WHEN">> \o A \o o1 \o Bb \o <<"THEN">> \o C \o <<"ELSE", "2", "END">> \o o2 \o A) : o1 \in In, o2 \in {<<"+">>, <<"=">>, <<"AND">>}}
+  \cup {EC("case-operand", <<o>>, <<"CASE">> \o A \o o \o Bb \o <<"WHEN", "1", "THEN">> \o C \o <<"WHEN", "0", "THEN", "2", "END">>) : o \in In}
+  \cup {EC("fn-arg",     <<o>>, <<"coalesce", "(">> \o A \o o \o Bb \o <<",">> \o C \o <<")">>) : o \in In}
+  \cup {EC("fn-after",   <<o>>, <<"abs", "(">> \o A \o <<")">> \o o \o Bb) : o \in In}
+  \cup {EC("cast-arg",   <<o>>, <<"CAST", "(">> \o A \o o \o Bb \o <<"AS", "INTEGER", ")">>) : o \in In}
   (* three infix operators, one representative per ladder level *)
-  \cup {EC("triple/flat", <<o1, o2, o3>>, A \o o1 \o Bb \o o2 \o C \o o3 \o D) :
+  \cup {EC("triple-flat", <<o1, o2, o3>>, A \o o1 \o Bb \o o2 \o C \o o3 \o D) :
           o1 \in Rep, o2 \in Rep, o3 \in Rep}
 ECases == EGen(Infix)
 (* the small bound: one operator spelling per ladder level (plus IS, <, LIKE, NOT LIKE) *)
